@@ -27,6 +27,10 @@ b33fde3 C20
 ec147cb C09
 ebead6e C13
 e07ea76 C18
+932554d C18
+7acf6c7 C18
+f5b320c C18
+ddb7a7f C18
 LIST
 mv $OUT.tmp $OUT
 python3 lib/seeded_meta.py >/dev/null
